@@ -9,7 +9,7 @@
   model in both directions (real file → `decSnapshot`, `encSnapshot` → real loader, byte equality
   of `encSnapshot (decSnapshot file)` with the real file) and real → real.
 
-  `Fix.code` is the loader of the pinned tree, `Fix.fixed` the loader with the two proposed repairs
+  `Fix.code` is the loader of the current tree, `Fix.fixed` the loader with the two proposed repairs
   (`dropExpired`: a pair whose deadline has passed at load time is removed again; `keepEmptyStream`:
   a marker-only list re-creates the empty stream).  The third defect — a LIST whose first element
   is the marker string is read back as a stream — is a property of the file format (streams are
@@ -184,6 +184,24 @@ theorem snapshot_roundtrip_fails_empty_stream :
   refine ⟨by decide, by decide, ?_⟩
   have h : decSnapshotT Fix.code (encSnapshot [48, 46, 49, 46, 48] [(3, [⟨[115], .stream [], none⟩])] 1000) 2000 =
       .ok [] [] [9, 5, 5, 1, 1, 25] := by decide
+  unfold decSnapshot
+  rw [h]
+
+/-- witness (both loaders): the LIST `[marker, "a"]` makes the WHOLE dump unloadable — the entry loop
+    breaks at once, leaves `"a"` unread, and the opcode loop then takes its length byte for a type
+    byte: the restart restores nothing after that point (here: a 8448-byte string is demanded). -/
+theorem snapshot_fails_marker_list_unloadable :
+    datasetWF [(0, [⟨[110], .list [marker, [97]], none⟩, ⟨[111], .str [118], none⟩])] = true ∧
+    ∀ fix : Fix, decSnapshot fix
+        (encSnapshot [48, 46, 49, 46, 48] [(0, [⟨[110], .list [marker, [97]], none⟩, ⟨[111], .str [118], none⟩])] 1000) 2000 =
+      .error (.shortString 8448) := by
+  refine ⟨by decide, ?_⟩
+  intro fix
+  have h : decSnapshotT fix
+      (encSnapshot [48, 46, 49, 46, 48] [(0, [⟨[110], .list [marker, [97]], none⟩, ⟨[111], .str [118], none⟩])] 1000) 2000 =
+      .err (.shortString 8448) [9, 5, 5, 1, 1, 25, 8448] := by
+    obtain ⟨a, b⟩ := fix
+    cases a <;> cases b <;> decide
   unfold decSnapshot
   rw [h]
 
